@@ -652,4 +652,57 @@ def diskProgram := diskProgramC Cfg.current
 def abortProgram : List FsOp :=
   [.createTmp] ++ (if Gen.Ingest.abortRemovesTmp then [FsOp.removeTmp] else [])
 
+/-! ## a caching reader: `DiskRefsContainer.get_packed_refs` and the rewrites that go through it
+
+The file is seen through its parse: the entries of the lines before the first bad line, the error of that line
+if there is one, and the identity (`_packed_refs_key`: inode, size, times) the cache is validated against. -/
+
+structure RefEntry where
+  name : Bytes
+  sha : Bytes
+  peeled : Option Bytes
+  deriving Repr, DecidableEq
+
+structure RFile where
+  parsed : List RefEntry     -- what the parse loop has put into `_packed_refs` when it stops
+  err : Option Err           -- why it stopped early (PackedRefsException …), `none` = the whole file parsed
+  key : Nat
+  deriving Repr, DecidableEq
+
+structure RCache where
+  refs : Option (List RefEntry)   -- `_packed_refs` (+ `_peeled_refs`)
+  key : Option Nat                -- `_packed_refs_key`
+  deriving Repr, DecidableEq
+
+def RCache.empty : RCache := ⟨none, none⟩
+
+/-- `get_packed_refs()`.  A cache whose key differs from the file on disk is dropped; an empty cache is filled by
+the parse loop, which populates `_packed_refs` line by line; `keyAfterParse` = the key is recorded only AFTER
+the loop has run to its end (what the translator checks in the source): a parse that raises leaves the
+partially filled dict behind, but under no key. -/
+def getPacked (keyAfterParse : Bool) (file : Option RFile) (c : RCache) : Except Err (List RefEntry) × RCache :=
+  let c1 := if c.refs.isSome && c.key != file.map (·.key) then RCache.empty else c
+  match c1.refs with
+  | some r => (.ok r, c1)
+  | none =>
+    match file with
+    | none => (.ok [], ⟨some [], none⟩)
+    | some f =>
+      match f.err with
+      | some e => (.error e, ⟨some f.parsed, if keyAfterParse then none else some f.key⟩)
+      | none => (.ok f.parsed, ⟨some f.parsed, some f.key⟩)
+
+/-- `add_packed_refs` / `_remove_packed_ref` / `pack_refs`: under the lock, re-read through `get_packed_refs`,
+apply the change, write the file anew (`newKey` = identity of the new file); `finally` the cache is dropped.
+If the read raises the lock file is aborted and the file stays as it is. -/
+def rewritePacked (keyAfterParse : Bool) (file : Option RFile) (c : RCache) (newKey : Nat)
+    (upd : List RefEntry → List RefEntry) : Except Err Unit × Option RFile × RCache :=
+  match (getPacked keyAfterParse file c).1 with
+  | .error e => (.error e, file, RCache.empty)
+  | .ok r => (.ok (), some ⟨upd r, none, newKey⟩, RCache.empty)
+
+/-- The reader of the code that exists. -/
+def getPackedNow := getPacked Gen.Ingest.packedRefsKeyAfterParse
+def rewritePackedNow := rewritePacked Gen.Ingest.packedRefsKeyAfterParse
+
 end Dulwich.Ingest
